@@ -3,7 +3,7 @@ import json
 from vlib import core
 
 META = {
-    "disabled": True,
+    "disabled": False,
     "level": "model_checking",
     "level_text": "Codec.tla transcribes the codec layer's decision logic: selector classification, the compressor's pipeline per "
                   "selector, the store-raw rule, the decompressor's pipeline per selector with the expected-size argument each stage "
